@@ -123,6 +123,9 @@ def ext_origin(o, k):
     return n
 
 
+UNIT_VARIANTS = set()      # constants standing for field-less enum variants (filled by mk_adt)
+
+
 def vfield(v, k):
     f = v.fields.get(k)
     if f is not None:
@@ -134,8 +137,8 @@ def vfield(v, k):
         if isinstance(o, str):
             if o.startswith("Const("):
                 # constants have no parts: empty collections / unit yield nothing, named items stay
-                if o in ("Const(empty)", "Const(default)", "Const(())", "Const(error)"):
-                    continue
+                if o in ("Const(empty)", "Const(default)", "Const(())", "Const(error)") or o in UNIT_VARIANTS:
+                    continue      # (a field-less enum variant has no parts either: `Mode::Full` joined with `Mode::Partial(x)`)
                 at.add((o, ops))
                 continue
             at.add((ext_origin(o, k), ops))
@@ -681,6 +684,7 @@ class Interp:
                 fl[f] = o
         if is_enum_name(name, variant):
             if not fl:
+                UNIT_VARIANTS.add("Const(%s::%s)" % (short(name), variant))
                 return Val(frozenset([("Const(%s::%s)" % (short(name), variant), NOOPS)]),
                            {tag: V("Const(%s)" % variant)})
             return Val(frozenset(), {variant: Val(frozenset(), fl), tag: V("Const(%s)" % variant)})
